@@ -37,6 +37,11 @@ type Config struct {
 	WhaleBalance string `json:"whale_balance,omitempty"`
 
 	ModuleService bool `json:"module_service"` // register the reserved module service + genesis def/binding
+	// MultiToken: plug the harness's token table (stake, gold/ugold scale 3, silver) into the keeper's TokenKeeper seam and
+	// serve exchange rates from Rates (pair "<min unit>-stake" -> decimal) through the "oracle" module service (implies
+	// the module-service registration and its genesis records)
+	MultiToken bool              `json:"multi_token,omitempty"`
+	Rates      map[string]string `json:"rates,omitempty"`
 	Replicas      int  `json:"replicas"`       // >=1
 	DrainBlocks   int  `json:"drain_blocks"`   // fault-free blocks appended by the executor at the end
 }
@@ -52,6 +57,11 @@ type Op struct {
 	Par *ParamsOp `json:"par,omitempty"`
 
 	Replica int `json:"replica,omitempty"` // crash: which replica (0 = primary replays its own block)
+
+	// rate: the exchange-rate feed changes (multi-token runs): Pair "<min unit>-stake", Rate a decimal, "" (no value),
+	// "!body" (malformed reply) or "!nan" (not a number)
+	Pair string `json:"pair,omitempty"`
+	Rate string `json:"rate,omitempty"`
 }
 
 // TxOp is one transaction: all msgs signed by Sender.
